@@ -40,6 +40,9 @@ pub enum Prov {
     SubNat(NatTy),
     /// produced by logic: v | b where b (another zoo type) is longer than v and all ones above n
     OrLonger(Tid),
+    /// built longer with ONES above, truncated to a fraction k of n, then the remaining bits
+    /// k..n pushed back one at a time (push writes single bits into words a shrink left behind)
+    TruncThenPush(u16),
 }
 
 impl Prov {
@@ -60,6 +63,7 @@ impl Prov {
             Prov::AddVec(_) => "prov:sum-with-other-type",
             Prov::SubNat(_) => "prov:difference-with-native",
             Prov::OrLonger(_) => "prov:or-with-longer",
+            Prov::TruncThenPush(_) => "prov:truncated-then-pushed",
         }
     }
 }
@@ -259,6 +263,21 @@ pub fn build<T: Subject>(bits: &Bits, prov: &Prov) -> T {
             let za = build_canon::<T>(&Bits::from_big(&a, n)).wrap();
             let r = tab_arith::apply(&za, RhsRef::N(Nat::new(*nty, c)), BinOp::Sub, Form::OwnOwn);
             T::from_z(r).expect("same type")
+        }
+        Prov::TruncThenPush(f) => {
+            let k = (*f as usize * (n + 1)) >> 16;
+            let mut m = n + 70;
+            if let Some(c) = cap {
+                m = m.min(c);
+            }
+            let mut long = bits.clone();
+            long.0.resize(m, true);
+            let mut v = build_canon::<T>(&long);
+            v.truncate(k);
+            for &b in &bits.0[k..] {
+                v.push(bit(b));
+            }
+            v
         }
         Prov::OrLonger(t2) => {
             let c2 = fixed_cap(*t2).unwrap_or(n + 70);
